@@ -1109,6 +1109,53 @@ package gohlslib
 //@ pred nextIdx(d *clientStreamDownloader, pl *playlist.Media) int := old(*d.curSegmentID) + 1 - pl.MediaSequence
 
 // variant selection: every codec string the muxer side can advertise is accepted
+// C09 / C13: which variant the client follows and which renditions it attaches
+//@ pred supVar(v *playlist.MultivariantVariant) := v != nil && forall(j, (0 <= j && j < len(v.Codecs)) ==> supportedCodec(v.Codecs[j]))
+
+//@ func getRenditionsByGroup
+//@   props C09 C13
+//@   requires forall(i, (0 <= i && i < len(renditions)) ==> renditions[i] != nil)
+//@   ensures forall(k, (0 <= k && k < len(result)) ==> (result[k] != nil && result[k].GroupID == groupID && exists(i, 0 <= i && i < len(renditions) && renditions[i] == result[k])))
+//@   ensures forall(i, (0 <= i && i < len(renditions) && renditions[i].GroupID == groupID) ==> exists(k, 0 <= k && k < len(result) && result[k] == renditions[i]))
+//@   ensures (result == nil) == !exists(i, 0 <= i && i < len(renditions) && renditions[i].GroupID == groupID)
+//@   loop 1 invariant -1 <= ri && ri < len(renditions)
+//@   loop 1 invariant forall(k, (0 <= k && k < len(ret)) ==> (ret[k] != nil && ret[k].GroupID == groupID && exists(i, 0 <= i && i <= ri && renditions[i] == ret[k])))
+//@   loop 1 invariant forall(i, (0 <= i && i <= ri && renditions[i].GroupID == groupID) ==> exists(k, 0 <= k && k < len(ret) && ret[k] == renditions[i]))
+//@   loop 1 invariant (ret == nil) == !exists(i, 0 <= i && i <= ri && renditions[i].GroupID == groupID)
+//@ end
+
+//@ func pickLeadingPlaylist
+//@   props C09 C13
+//@   requires forall(i, (0 <= i && i < len(variants)) ==> variants[i] != nil)
+//@   ensures (result == nil) == !exists(i, 0 <= i && i < len(variants) && supVar(variants[i]))
+//@   ensures result != nil ==> (supVar(result) && exists(i, 0 <= i && i < len(variants) && variants[i] == result))
+//@   ensures result != nil ==> forall(i, (0 <= i && i < len(variants) && supVar(variants[i])) ==> variants[i].Bandwidth <= result.Bandwidth)
+//@   loop 1 invariant -1 <= ri && ri < len(variants)
+//@   loop 1 invariant forall(k, (0 <= k && k < len(candidates)) ==> (supVar(candidates[k]) && exists(i, 0 <= i && i <= ri && variants[i] == candidates[k])))
+//@   loop 1 invariant forall(i, (0 <= i && i <= ri && supVar(variants[i])) ==> exists(k, 0 <= k && k < len(candidates) && candidates[k] == variants[i]))
+//@   loop 1 invariant (candidates == nil) == !exists(i, 0 <= i && i <= ri && supVar(variants[i]))
+//@   loop 2 invariant -1 <= ri && ri < len(candidates) && (leadingPlaylist == nil) == (ri == -1)
+//@   loop 2 invariant leadingPlaylist != nil ==> exists(k, 0 <= k && k <= ri && candidates[k] == leadingPlaylist)
+//@   loop 2 invariant forall(k, (0 <= k && k <= ri) ==> candidates[k].Bandwidth <= leadingPlaylist.Bandwidth)
+//@   loop 2 invariant forall(k, (0 <= k && k < len(candidates)) ==> (supVar(candidates[k]) && exists(i, 0 <= i && i < len(variants) && variants[i] == candidates[k])))
+//@   loop 2 invariant forall(i, (0 <= i && i < len(variants) && supVar(variants[i])) ==> exists(k, 0 <= k && k < len(candidates) && candidates[k] == variants[i]))
+//@ end
+
+// every stream downloader the client starts is either the leading one (no rendition attached) or follows a rendition
+// of the chosen audio group that has its own URI, and carries that rendition (its NAME / LANGUAGE / DEFAULT are what
+// the client reports for the stream's tracks)
+//@ func clientPrimaryDownloader.run
+//@   props C09 C13
+//@   nosafety
+//@   noframe
+//@   nocallpre
+//@   modifies *
+//@   atcall clientStreamDownloader.initialize (arg0.isLeading && arg0.rendition == nil) || (!arg0.isLeading && arg0.rendition != nil && arg0.rendition.URI != nil)
+//@   atcall clientStreamDownloader.initialize arg0.client == d.client && arg0.rp == d.rp && arg0.httpClient == d.httpClient
+//@   atcall getRenditionsByGroup arg0 == plt.Renditions && arg1 == leadingPlaylist.Audio && leadingPlaylist.Audio != ""
+//@   atcall pickLeadingPlaylist arg0 == plt.Variants
+//@ end
+
 //@ func checkSupport
 //@   props C09 C13
 //@   ensures result == forall(i, (0 <= i && i < len(codecs)) ==> supportedCodec(codecs[i]))
